@@ -5,7 +5,7 @@ unreachable goals) x representation of the deterministic MDP x consistent heuris
 action-order option, and for the randomised configurations EVERY answer of the seeded generator
 (shuffles and the lazy tie-break comparisons inside heapq).  Oracle: own Bellman-Ford / BFS over ints."""
 import warnings
-from itertools import combinations, product
+from itertools import combinations, permutations, product
 
 from mc.run import Res, item_from_record
 from mc.explore import Explorer, patched_random
@@ -32,22 +32,73 @@ INF = float('inf')
 
 def bounds(tier):
     return {'quick': '3 nodes full (costs {0,1,2}); 4 nodes costs {0,1} goal {3}, costs {1,2} goals {2,3}; full RNG branching (cap 3000 executions/instance)',
-            'thorough': '+ 4 nodes costs {0,1,2} goal {3} ; 5 nodes out-degree<=2 costs {1} goal {4} with <= 1 back edge'}[tier]
+            'thorough': '+ wide-fan graphs on 10-14 nodes (deterministic order + random tie-breaks) + 4 nodes costs {0,1,2} goal {3} ; 5 nodes out-degree<=2 costs {1} goal {4} with <= 1 back edge'}[tier]
 
 
-def node_options(n, costs, max_out=2):
+def node_options(n, costs, max_out=2, ordered=False):
     single = [((t, c),) for t in range(n) for c in costs]
     opts = [()] + single
     if max_out >= 2:
-        opts += [a + b for a, b in combinations(single, 2)]
+        opts += [a + b for a, b in (permutations(single, 2) if ordered else combinations(single, 2))]
     return opts
+
+
+def dense_graphs():
+    """Layered / dense DAGs on 6-9 nodes in which almost every expansion revises several queued nodes
+    (many best-in-queue replacements, interior heap positions), plus shuffled action orders."""
+    for n in (6, 7, 8, 9):
+        for pat in range(6):
+            edges = []
+            for i in range(n):
+                out = []
+                for j in range(i + 1, n):
+                    d = j - i
+                    c = [d * d, 2 * d - 1, 3 * d + (j % 2), d * (n - j), 1 + (i * j) % 5, (d * 7) % 4 + d][pat]
+                    out.append((j, c))
+                if pat % 2 == 1:
+                    out = out[::-1]
+                if pat % 3 == 2 and len(out) > 2:
+                    out = out[1:] + out[:1]
+                edges.append(tuple(out))
+            yield (n, tuple(edges), (n - 1,))
+            # same with a couple of back edges and a second goal
+            e2 = list(edges)
+            e2[n - 2] = e2[n - 2] + ((0, 1),)
+            e2[2] = e2[2] + ((1, 0),)
+            yield (n, tuple(e2), (n - 1, n - 3))
+
+
+def fan_graphs():
+    """Wide fans (12-14 nodes): the start reaches a zero-cost hub and k nodes at distinct costs (a full priority queue);
+    the hub, expanded first, reaches one or two of the queued nodes more cheaply (revision at an interior queue
+    position); every fan node reaches the goal at a patterned cost."""
+    for k in (7, 8, 9, 10, 11):
+        n = k + 3
+        goal, hub = n - 1, n - 2
+        base = list(range(2, 2 + k))
+        for rot in range(k):
+            for rev in (0, 1):
+                costs = base[rot:] + base[:rot]
+                if rev:
+                    costs = costs[::-1]
+                for r in range(1, k + 1):
+                    for r2 in (0, (r % k) + 1, ((r + 3) % k) + 1):
+                        for gpat in range(6):
+                            edges = [()] * n
+                            edges[0] = ((hub, 0),) + tuple((i, costs[i - 1]) for i in range(1, k + 1))
+                            edges[hub] = ((r, 1),) + (((r2, 2),) if r2 else ())
+                            for i in range(1, k + 1):
+                                g = [3, (i * 5) % 7, k - i, (i * i) % 5, (i * 3 + 1) % 4, abs(k // 2 - i)][gpat]
+                                edges[i] = ((goal, g),)
+                            yield (n, tuple(edges), (goal,))
 
 
 def graph_items(tier):
     # 3 nodes
-    o3 = node_options(3, [0, 1, 2])
+    o3 = node_options(3, [0, 1, 2], ordered=True)     # ordered pairs: also the dearer of two parallel edges listed first
     for g in product(o3, o3):
         yield (3, g + ((),), (2,))
+    yield from dense_graphs()
     for g0 in o3:
         yield (3, (g0, (), ()), (1, 2))
         yield (3, (g0, ((0, 1),), ((1, 0),)), (0,))
@@ -62,6 +113,7 @@ def graph_items(tier):
     for g in product(o4b, repeat=2):
         yield (4, g + ((), ()), (2, 3))
     if tier == 'thorough':
+        yield from fan_graphs()
         o4c = node_options(4, [0, 1, 2])
         for g in product(o4c, repeat=3):
             yield (4, g + ((),), (3,))
@@ -94,7 +146,7 @@ def build_problem(n, edges, goals, kind, strlabels):
     from msdm.core.distributions import DeterministicDistribution, DictDistribution, UniformDistribution
     lab = (lambda i: 'n%d' % i) if strlabels else (lambda i: i)
     unlab = {lab(i): i for i in range(n)}
-    names = 'ab'
+    names = 'abcdefghijklmnop'
 
     def acts(s):
         return tuple(names[k] for k in range(len(edges[unlab[s]])))
@@ -196,10 +248,10 @@ def check(item, tier):
                     bad('policy_undefined_on_path', {'state': u, 'error': repr(e)[:200]})
                     return
                 acts = [a for a, p in ad.items() if p > 0]
-                if len(acts) != 1 or acts[0] not in 'ab'[:len(edges[u])]:
+                if len(acts) != 1 or acts[0] not in 'abcdefghijklmnop'[:len(edges[u])]:
                     bad('policy_not_a_single_available_action', {'state': u, 'dist': repr(ad)})
                     return
-                t, c = edges[u][ 'ab'.index(acts[0])]
+                t, c = edges[u]['abcdefghijklmnop'.index(acts[0])]
                 if t != v:
                     bad('path_hop_not_a_transition_under_policy', {'path': path, 'state': u, 'action': acts[0], 'leads_to': t})
                     return
@@ -226,7 +278,10 @@ def check(item, tier):
             for tb in ('lifo', 'fifo', 'random'):
                 for rao in (False, True):
                     configs.append(('astar', hk, tb, rao))
+        maxdeg = max(len(e) for e in edges)
         for algo, hk, tb, rao in configs:
+            if rao and maxdeg > 4:
+                continue        # shuffles of more than 5 actions are not enumerated (dense family: deterministic order + random tie-breaks)
             ctx = {'heuristic': hk, 'tie_breaking': tb, 'randomize_action_order': rao}
             randomized = rao or tb == 'random'
 
